@@ -145,7 +145,10 @@ def r14_dict(ctx):
 BAD_TEXTS = ['foo', '', '   ', 'note_on note', 'note_on note=', 'note_on note=x', 'note_on note=1.5', 'note_on note=300', 'note_on channel=16',
              'note_on bogus=1', 'note_on =5', 'note_on type=5', 'note_on note=1 note=200', 'note_on time=abc', 'note_on time=', 'pitchwheel pitch=9000',
              'sysex data=1,2', 'sysex data=(1,2', 'sysex data=1,2)', 'sysex data=(1,,2)', 'sysex data=(a)', 'sysex data=(200)', 'sysex data=', 'sysex data=)(',
-             'clock note=1', 'NOTE_ON', 'note_on note==1', '=', 'note_on note=1 junk', 'sysex data=(1 2)']
+             'clock note=1', 'NOTE_ON', 'note_on note==1', '=', 'note_on note=1 junk', 'sysex data=(1 2)',
+             # words that are parameter names of the constructor rather than attributes of the message
+             'note_on self=1', 'note_on skip_checks=1', 'note_on skip_checks=1 note=999 channel=99', 'clock skip_checks=1 foo=3',
+             'sysex skip_checks=1 data=(999,-5)', 'note_on skip_checks=0', 'note_on args=1', 'note_on cl=1']
 GOOD_TEXTS = [('note_on', {'type': 'note_on', 'channel': 0, 'note': 0, 'velocity': 64, 'time': 0}),
               ('note_on channel=2 note=60 velocity=0 time=0.5', {'type': 'note_on', 'channel': 2, 'note': 60, 'velocity': 0, 'time': 0.5}),
               ('  pitchwheel   pitch=-8192\ttime=3 ', {'type': 'pitchwheel', 'channel': 0, 'pitch': -8192, 'time': 3}),
